@@ -116,9 +116,9 @@ pub fn subjects(thorough: bool) -> Vec<Subject> {
     for (i, id) in [0u64, 1, 2, 4, 5, 9, 10, 300].iter().enumerate() {
         l.tiles.insert(*id, ks[i % 2].clone());
     }
-    out.push(subject_from_bytes("lib-small-gzip", write_lib(&l, Api::Sync).unwrap(), json!({"lib":"small","comp":"gzip"}), 40));
+    out.push(subject_from_bytes("lib-small-gzip", write_lib(&l, Api::Sync).unwrap(), json!({"lib":"small","comp":"gzip"}), if thorough { 90 } else { 40 }));
     let l = scale_family(0, 60, Compression::None);
-    out.push(subject_from_bytes("lib-runs-none", write_lib(&l, Api::Async).unwrap(), json!({"lib":"runs","comp":"none"}), 40));
+    out.push(subject_from_bytes("lib-runs-none", write_lib(&l, Api::Async).unwrap(), json!({"lib":"runs","comp":"none"}), if thorough { 90 } else { 40 }));
     let n = crossing(1, Compression::None, &window_logical_entries) + 30;
     let l = window_logical(1, n, Compression::None);
     out.push(subject_from_bytes("lib-leaf-spill-none", write_lib(&l, Api::Sync).unwrap(), json!({"lib":"window","family":1,"n":n,"comp":"none"}), if thorough { 40 } else { 24 }));
@@ -134,7 +134,7 @@ pub fn subjects(thorough: bool) -> Vec<Subject> {
         Spec { order: 2, gap: 0, root_gap: false, shape: Shape::RootOnly, run: 2, offs: Offs::Contiguous, n: 3, meta: 1, comp: 1, base: 0, hv: 0, level_order: false },
     ];
     for (i, s) in specs.iter().enumerate() {
-        out.push(subject_from_bytes(&format!("foreign-{i}-{:?}", s.shape), foreign::build(s).bytes, s.to_json(), 40));
+        out.push(subject_from_bytes(&format!("foreign-{i}-{:?}", s.shape), foreign::build(s).bytes, s.to_json(), if thorough { 90 } else { 40 }));
     }
     // foreign with a leaf pointer id below its first entry and a run ending at u64::MAX-ish ids excluded: ids near zero
     out.push(subject_from_bytes(
